@@ -160,7 +160,135 @@ def c08(tier):
     return out
 
 
+# --------------------------------------------------------------------------- #
+# whole-node helpers                                                            #
+# --------------------------------------------------------------------------- #
+NODE_DEFS = {'CO_TPDO_N': 2, 'CO_RPDO_N': 2, 'CO_VERIF_TMR_POOL_HOOK': None}
+
+
+def node_unwind(N=None, extra=None, dom=16, strn=12):
+    """loop bounds shared by whole-node harnesses (N = scaled SDO block size)"""
+    u = {'CODictFind': 9, 'COTmrReset': 9, 'CoVerifTmrPool': 9, 'COTPdoMapClear': 17, 'COTPdoTrigObj': 17,
+         'COTPdoMapAdd': 17, 'COSdoInit': 3, 'COSdoCheck': 3, 'COObjTypeUserSDOAbort': 3, 'od_find': 80}
+    if N is not None:
+        bb = 7 * N
+        u.update({'COSdoUploadSegmented': 9, 'COSdoDownloadSegmented': 9, 'COSdoDownloadBlock': 9, 'COSdoAckUploadBlock': 9,
+                  ('COSdoUploadBlock', 0): bb + 1, ('COSdoUploadBlock', 1): N + 2, ('COSdoUploadBlock', 2): 9, ('COSdoUploadBlock', 3): 9,
+                  'COTDomainRead': dom + 2, 'COTDomainWrite': dom + 2, 'COTStringSize': strn + 6, 'COTStringRead': strn + 6})
+    if extra:
+        u.update(extra)
+    return u
+
+
+SDO_TGT = ['u8', 'u16', 'u32', 'nodeid32', 'ro8', 'wo8', 'domain', 'string', 'hbprod', 'sdoid', 'noidx', 'nosub', 'const32']
+
+
+def sdo_step_insts(tier):
+    out = []
+    Ns = [2, 4] if tier == 'quick' else [2, 3, 4, 6]
+    tg_full = [0, 2, 3, 4, 5, 6, 7, 8, 9, 10, 11, 12]
+    for N in Ns:
+        bb = 7 * N
+        for ph in range(5):
+            tgs = tg_full if (N == 4 or tier == 'thorough') else [2, 6, 7]
+            for t in tgs:
+                if ph != 0 and t in (10, 11):
+                    continue      # no transfer can be open on an object that does not exist
+                if ph in (2, 3) and t in (4, 7, 12):
+                    continue      # block download is only ever open on a writable object (invariant)
+                if ph == 4 and t == 5:
+                    continue      # block upload is only ever open on a readable object (invariant)
+                for fm in ((0, 1) if ph == 1 and t != 2 else (0,)):
+                    defs = dict(NODE_DEFS)
+                    defs.update({'PH': ph, 'TGT': t, 'FM': fm, 'CO_VERIF_SDO_BUF_SEG': N, 'OD_DOM_SIZE': 16 if tier == 'quick' else 40})
+                    out.append(Inst('sdo_step_n%d_ph%d_%s%s' % (N, ph, SDO_TGT[t], '_alt' if fm else ''), 'sdo_step.c', defs,
+                                    unwind=max(bb + 2, 46 if tier != 'quick' else 22),
+                                    unwindset=node_unwind(N, dom=16 if tier == 'quick' else 40), objbits=10, harness_only=['PH', 'TGT', 'FM'], family='sdo_step',
+                                    bounds='block size N=%d (buffer %d bytes), phase %d, object %s%s; server state, buffer, object contents and the frame (cmd, dlc, payload) symbolic' % (
+                                        N, bb, ph, SDO_TGT[t], ', frame names object 2102h' if fm else '')))
+    return out
+
+
+def sdo_xfer_inst(xf, tgt, N, pre=0, ptgt=6, dom=16, ubl=4, nseg=2, lose=0, bs=2, fill=0):
+    defs = dict(NODE_DEFS)
+    defs.update({'XF': xf, 'TGT': tgt, 'PRE': pre, 'PTGT': ptgt, 'CO_VERIF_SDO_BUF_SEG': N, 'OD_DOM_SIZE': dom, 'UBL': ubl,
+                 'NSEG': nseg, 'LOSE': lose, 'BS': bs, 'FILL': fill})
+    name = 'sdo_xfer_x%d_%s_n%d_s%d%s%s%s%s' % (xf, SDO_TGT[tgt], N, nseg, ('f%d' % fill) if fill else '', ('_l%d' % lose) if xf == 3 else '', ('_b%d' % bs) if xf == 4 else '',
+                                             ('_pre%d' % pre + ('_%s' % SDO_TGT[ptgt] if ptgt != 6 else '')) if pre else '')
+    kinds = ['expedited download + read back', 'segmented download', 'segmented upload', 'block download', 'block upload with partial acknowledges']
+    size = '1..4' if nseg == 0 else ('5..7' if nseg == 1 else '%d..%d' % (7 * (nseg - 1) + 1, 7 * nseg))
+    if fill:
+        size = str(fill if nseg == 0 else 7 * (nseg - 1) + fill)
+    return Inst(name, 'sdo_xfer.c', defs, unwind=max(dom + 10, 7 * N + 2, 22), unwindset=node_unwind(N, dom=dom), objbits=10,
+                harness_only=['XF', 'TGT', 'PRE', 'PTGT', 'UBL', 'NSEG', 'LOSE', 'BS', 'FILL'], family='sdo_xfer', weight=3 if xf >= 3 else 1,
+                bounds='%s of %s, block size N=%d, size %s bytes symbolic (%d segments), payload/contents/size-indication symbolic%s%s%s' % (
+                    kinds[xf], SDO_TGT[tgt], N, size, nseg,
+                    (', segment %d of every first try lost' % lose) if (xf == 3 and lose) else '',
+                    (', requested block size %d, acknowledge position and next block size symbolic, <= %d blocks' % (bs, ubl)) if xf == 4 else '',
+                    '' if not pre else ('; preceded by an arbitrary server state of phase %d (open on %s) and %s' % ((pre - 1) % 5, SDO_TGT[ptgt], 'a client abort' if pre <= 5 else 'NMT reset communication'))))
+
+
+def c02(tier):
+    out = []
+    for t in (0, 1, 2, 3):
+        out.append(sdo_xfer_inst(0, t, 2))
+    maxseg = 3 if tier == 'quick' else 5
+    dom = 7 * maxseg
+    sizes = [(0, f) for f in (1, 2, 3, 4)] + [(1, 5), (1, 6), (1, 7)] + [(ns, f) for ns in range(2, maxseg + 1) for f in range(1, 8)]
+    for ns, f in sizes:
+        out.append(sdo_xfer_inst(1, 6, 2, dom=dom, nseg=ns, fill=f))
+    for N in ((2, 3) if tier == 'quick' else (2, 3, 4)):
+        for ns, f in sizes:
+            if tier == 'quick' and N == 3 and f not in (1, 4, 7):
+                continue
+            for lose in range(0, N):
+                if lose and ns < 2:
+                    continue
+                out.append(sdo_xfer_inst(3, 6, N, dom=dom, nseg=ns, lose=lose, fill=f))
+    return out
+
+
+def c03(tier):
+    out = []
+    maxseg = 3 if tier == 'quick' else 5
+    dom = 7 * maxseg
+    for t in (6, 7):
+        for ns in range(0, maxseg + 1):
+            if t == 7 and 7 * ns > 14:
+                continue
+            out.append(sdo_xfer_inst(2, t, 2, dom=dom, nseg=ns))
+    for N in ((2, 3) if tier == 'quick' else (2, 3, 4)):
+        for t in (6, 7):
+            for ns in range(0, maxseg + 1):
+                if t == 7 and 7 * ns > 14:
+                    continue
+                for bs in (1, 2, 3, 127):
+                    if bs in (2, 3) and bs > N:
+                        continue
+                    out.append(sdo_xfer_inst(4, t, N, dom=dom, nseg=ns, bs=bs, ubl=4))
+    return out
+
+
+def c05(tier):
+    out = []
+    for pre in range(1, 11):
+        for xf, t in ((0, 2), (1, 6), (2, 6), (2, 7), (3, 6), (4, 6), (4, 7)):
+            out.append(sdo_xfer_inst(xf, t, 2, pre=pre, dom=14, ubl=3, nseg=2, bs=2, fill=3 if xf in (1, 3) else 0))
+        if (pre - 1) % 5 in (1, 4):
+            out.append(sdo_xfer_inst(2, 7, 2, pre=pre, ptgt=7, dom=14, nseg=0))
+            out.append(sdo_xfer_inst(4, 7, 2, pre=pre, ptgt=7, dom=14, ubl=3, nseg=0, bs=2))
+    return out
+
+
+def c01(tier):
+    return sdo_step_insts(tier)
+
+
 PROPS = {
+    'C01': c01,
+    'C02': c02,
+    'C03': c03,
+    'C05': c05,
     'C06': c06,
     'C07': c07,
     'C08': c08,
